@@ -692,4 +692,16 @@ theorem agrees_with_std_json_scalar_fixed (p : Prim) (v : J) (a b : Val)
 
 example : fillPrim false (.float 32) (.num "1.5".toList) = stdPrim (.float 32) (.num "1.5".toList) := by
   simp [fillPrim, stdPrim, convFromString]
+/-- **the two-format scope** (documents that TOML cannot hold, e.g. integers in (MaxInt64, MaxUint64]): JSON and YAML agree
+for every document without null, with NO hypothesis about a TOML rendering - conf loaders under every option set /
+environment and the mapping entry points under every option LIST (monitor clause `format-dependent class=format-json-yaml`,
+seeded C17-6). -/
+theorem json_yaml_agree (o : Opts) (opts : List MOpt) (fs : Fields) (d : J) (hd : plainDoc d = true) :
+    loadYamlO o fs (embY d) = loadJsonO o fs d ∧
+    unmarshalYaml (applyMOpts o opts) fs (embY d) = unmarshalWith (applyMOpts o opts) fs d := by
+  unfold loadYamlO loadJsonO unmarshalYaml
+  rw [yaml_normal_form d hd]
+  exact ⟨rfl, rfl⟩
+
+example : plainDoc (.obj (.cons "id".toList (.num "18446744073709551615".toList) .nil)) = true := by decide
 end GoZero.C17
